@@ -33,4 +33,4 @@ elif what == "seeds":
 elif what == "refactors":
     out = subprocess.run([sys.executable, str(V / "selftest/refactor_matrix.py")],
                          capture_output=True, text=True).stdout
-    print(out[-3000:])
+    print(out[-12000:])
